@@ -9,8 +9,8 @@ from ..report import Result
 from ..loader import AnalysisError, src_of
 
 TECHNIQUE = ("abstract interpretation (units-of-measure domain with dimension vectors) of every * / ** arm "
-             "against value/type/unit contracts; None-flow and float-coercion flags; constant-propagated "
-             "uniqueness rule for the type registry")
+             "against value/type/unit contracts; None-flow and float-coercion flags; evaluated "
+             "uniqueness scenarios for the type registry and class creation")
 
 
 def registry_rules(prog, res: Result):
@@ -38,25 +38,82 @@ def registry_rules(prog, res: Result):
         detail = f"unique_items resolves to {src_of(val) if val is not None else None}"
     res.ob("R02.5", "QuantityMeta._registry", "unique_items is true", ok, detail,
            sig="type registry does not enforce uniqueness", nontrivial=False)
-    # register_item raises ValueError for a different item with an equivalent definition when unique
-    ri = prog.method("DefinedItemRegistry", "register_item")
-    raises = [n for n in ast.walk(ri.node) if isinstance(n, ast.Raise)]
-    guarded = False
-    for n in ast.walk(ri.node):
-        if isinstance(n, ast.If) and "_unique_items" in src_of(n.test) and any(isinstance(x, ast.Raise) for x in n.body):
-            guarded = True
-    res.ob("R02.5", "DefinedItemRegistry.register_item", "duplicate definition raises", guarded and bool(raises),
-           "no `raise` under the unique-items guard", sig="duplicate definition accepted", nontrivial=False)
-    # class creation registers the class, not inside a try that swallows ValueError
-    init = prog.method("QuantityMeta", "__init__")
-    calls = [n for n in ast.walk(init.node) if isinstance(n, ast.Call) and isinstance(n.func, ast.Attribute)
-             and n.func.attr == "register_item"]
-    in_try = any(isinstance(t, ast.Try) and any(c in ast.walk(t) for c in calls) for t in ast.walk(init.node))
-    top_level = any(any(c in ast.walk(st) for c in calls) for st in init.node.body
-                    if not isinstance(st, (ast.If, ast.Try, ast.For, ast.While)))
-    res.ob("R02.5", "QuantityMeta.__init__", "registers the class on every path", bool(calls) and top_level and not in_try,
-           f"register_item calls: {len(calls)}, unconditional: {top_level}, inside try: {in_try}",
-           sig="class creation may skip or swallow registration", nontrivial=False)
+    # evaluated, not pattern-matched: (a) the registry itself - a different item with the same definition is
+    # rejected when unique (ValueError), kept behind the first one otherwise, an equal item is accepted;
+    from ..engine_a import run_body
+    from ..models import DictV
+    from ..report import Violation
+    from .c15 import run_entry
+    reg_ci = prog.cls("DefinedItemRegistry")
+
+    def reg_body(unique):
+        def body(I, c):
+            st = c.st
+            I.models.term_objects = True
+            c.new_type("T", **FLAVORS["ref"])
+            base = UnitV(st.ref_unit("T"))
+            st.U(base.uid).kind = "ref"
+            st.unit_defs[base.uid] = "base"
+            TERM = TypeV("Term", prog.cls("Term"))
+            d = I.models.call(TERM, [TupleV([TupleV([base, Num(RF.const(2), "int")])])], {}, None)
+            x1 = ObjV(None, "item1", {"normalized_definition": d})
+            x2 = ObjV(None, "item2", {"normalized_definition": d})
+            reg = ObjV(reg_ci, "registry", {"_unique_items": BoolV(unique), "_item_def_map": DictV(), "_item_list": ListV([])})
+            ri = prog.method("DefinedItemRegistry", "register_item")
+            i1 = I.call_function(ri, [reg, x1], {})
+            i1b = I.call_function(ri, [reg, x1], {})
+            try:
+                i2 = I.call_function(ri, [reg, x2], {})
+            except AbsRaise as ar:
+                i2 = ar.exc.name
+            got = I.call_function(prog.method("DefinedItemRegistry", "__getitem__"), [reg, d], {})
+            st.res = (i1, i1b, i2, got, x1, x2)
+            return reg
+        return body
+
+    def reg_judge(unique):
+        def judge(o):
+            if o.kind == "raise":
+                return (exc_sig(o), "registry scenario raised")
+            i1, i1b, i2, got, x1, x2 = o.state.res
+            same = lambda a_, b_: isinstance(a_, Num) and isinstance(b_, Num) and o.state.norm(a_.rf).equals(o.state.norm(b_.rf))
+            if not same(i1, i1b):
+                return ("registering the same item twice does not return its id", f"{i1!r}, {i1b!r}")
+            if unique and i2 != "ValueError":
+                return ("duplicate definition accepted", f"a different item with the same definition got {i2!r}")
+            if not unique and not same(i1, i2):
+                return ("equivalent definitions get different registry ids", f"{i1!r} vs {i2!r}")
+            if got is not x1:
+                return ("lookup by definition does not return the first registered item", repr(got))
+            return None
+        return judge
+    for unique in (True, False):
+        run_entry(prog, res, "R02.5", "DefinedItemRegistry.register_item",
+                  f"two items with one definition, unique_items={unique}", reg_body(unique), reg_judge(unique),
+                  max_depth=16)
+
+    # (b) class creation: on every path on which the definition is found registered (or the registry reports a
+    # duplicate) the class statement fails with ValueError - nothing swallows the rejection
+    from ..declcases import base_types, create_class
+
+    def cls_body(I, c):
+        base_types(c)
+        return create_class(prog, I, c, derived=True, ref_symbol=False)
+    seen = {"dup": 0}
+
+    def cls_judge(o):
+        dup = any(t.endswith("=duplicate-definition") for t in o.trace) or \
+            any(t.startswith("unit_from_term@") and t.endswith("=found") for t in o.trace)
+        if not dup:
+            return None
+        seen["dup"] += 1
+        if o.kind != "raise" or o.exc.name != "ValueError":
+            return ("a second type with an already registered definition is accepted", o.brief())
+        return None
+    run_entry(prog, res, "R02.5", "QuantityMeta.__new__/__init__", "derived type whose definition is already registered",
+              cls_body, cls_judge, max_depth=14, min_paths=2)
+    res.ob("R02.5", "QuantityMeta.__new__/__init__", "a duplicate definition is reachable in the scenario", seen["dup"] > 0,
+           "no path of class creation meets an already registered definition", sig="duplicate type never rejected")
 
 
 def run(prog, tier) -> Result:
